@@ -398,13 +398,13 @@ func init() {
 		// ---- SCION listener (same IA, empty path; and hand-built multi-hop paths)
 		lia, _ := addr.ParseIA("1-ff00:0:110")
 		ria, _ := addr.ParseIA("2-ff00:0:220")
-		if tgt.Alive() {
-			for _, port := range []uint16{10123, 30041} {
+		runSC := func(srv netip.Addr, tgt *Target, d ntske.Data, tag string, ports []uint16) {
+			for _, port := range ports {
 				if !tgt.Alive() {
 					break
 				}
 				underlay := port
-				scT := &c09Transport{name: fmt.Sprintf("scion(underlay %d)", underlay), dst: netip.AddrPortFrom(srv, underlay), client: uc}
+				scT := &c09Transport{name: fmt.Sprintf("%sscion(underlay %d)", tag, underlay), dst: netip.AddrPortFrom(srv, underlay), client: uc}
 				scT.wrap = func(p []byte, rng *rand.Rand) ([]byte, func([]byte) ([]byte, string)) {
 					seed := rng.Uint64()
 					mk := func() path.Path {
@@ -487,8 +487,35 @@ func init() {
 						return ps.UDP.Payload, problem
 					}
 				}
-				cs := c09Cases(r, rng, d, fmt.Sprintf("sc%d-", underlay))
+				cs := c09Cases(r, rng, d, fmt.Sprintf("%ssc%d-", tag, underlay))
 				c09Run(r, scT, cs, rng, tgt)
+			}
+		}
+		if tgt.Alive() {
+			runSC(srv, tgt, d, "", []uint16{10123, 30041})
+		}
+		// ---- listeners configured for hardware timestamping on an interface that never stamps a packet
+		// (zone "lo"): no receive timestamp control message arrives, the listeners fall back on a clock
+		// reading, and the verdict on every request is the same as with kernel timestamps (seed C09-l)
+		if r.Only() == "" || strings.HasPrefix(r.Only(), "nots-") {
+			srv2 := blockIP(r, 9, 4)
+			if tgt2, err := StartTarget("plain", "-ip", srv2.String(), "-kinds", "ip,scion,ntske", "-zone", "lo"); err != nil {
+				r.Class("no-rx-timestamp:target could not be started")
+			} else {
+				if d2, err := fetchNTS(srv2); err != nil || len(d2.Cookie) == 0 {
+					r.Class("no-rx-timestamp:key exchange failed")
+				} else {
+					// the second session the cases mix in must be one with this target
+					c09Second = nil
+					if d3, err := fetchNTS(srv2); err == nil && len(d3.Cookie) > 0 {
+						c09Second = &d3
+					}
+					ipT2 := &c09Transport{name: "ip(no kernel rx timestamp)", dst: netip.AddrPortFrom(srv2, 123), client: uc, wrap: ipT.wrap}
+					if c09Run(r, ipT2, c09Cases(r, rng, d2, "nots-ip"), rng, tgt2) {
+						runSC(srv2, tgt2, d2, "nots-", []uint16{10123})
+					}
+				}
+				tgt2.Kill()
 			}
 		}
 		if got := oc.Drain(200 * time.Millisecond); len(got) > 0 {
